@@ -17,11 +17,19 @@ RULE = ("exhaustive sequences over the 14 token kinds (position-dependent canoni
         "with an expected tape by construction; chains of 2..6 parses into one tape alternating the two entry points; every input "
         "accepted in any of the streams re-run against the real Lexer's token sequence (bt.mir). "
         # <<< a_c03
+        # s_c03 (wave 6)
+        "size ladders 0 1 2 3 7 8 9 15..17 31..33 63..65 127..129 255..257 1023..1025 4095..4097 65536 (strings: 65533..65535) over one "
+        "dimension at a time (run length of every element kind behind every kind of key, breaks of a run, fields, consecutive ghosts, "
+        "nesting depth, mixed tails, string payload length, every token id in six positions, tape length vs capacity, used tape "
+        "longer / shorter than the new parse, parses per tape up to 300) with an expected tape by construction, release and debug "
+        "(model up to ~1600 input bytes and 1023..1025 on seven primary shapes; longer cases by the independent oracles only). "
         "non-trivial = at least one of the two parsers accepted the input, or the input has >= 3 tokens")
 TRUSTED = ["Vec growth / copyless::VecHelper (push = snoc on a list)",
            "harness/src/fam_bintape.rs printing of BinaryToken and its structural checker",
            # a_c03
-           "harness/src/fam_bintape.rs mod mirror (raw token stream through jomini::binary::Lexer, untape, the two list comparisons)"]
+           "harness/src/fam_bintape.rs mod mirror (raw token stream through jomini::binary::Lexer, untape, the two list comparisons)",
+           # s_c03
+           "props/C03_ladder.py class TB (bytes and expected tape written side by side)"]
 ASSUMPTIONS = ["the model parameter fx=false is the code as it is; fx=true (I64 excluded from the three id-class tests) is the repaired parser the unconditional theorem is about"]
 
 PROFILES = ["release", "debug"]
@@ -431,6 +439,13 @@ def gen_streams(ctx, judge, sizes):
         # 10. every accepted input of every stream above: the real tape against the real Lexer's token sequence
         C03_mirror.run_mirror(ctx, judge, judge.accepted, extra=[hexs(C03_mirror.witness_L(enc, EQUAL, OPEN, CLOSE))])
     # <<< a_c03
+        # >>> s_c03 (wave 6)
+        # 11. size ladders: one size-like dimension at a time up to 65536 (run lengths, fields, ghosts, depth, mixed tails,
+        #     string lengths up to 65535, every token id, tape length vs capacity, used tapes longer / shorter), expected tape
+        #     by construction, release and debug
+        from props import C03_ladder
+        C03_ladder.run_ladders(ctx, judge, me)
+        # <<< s_c03
 
 
 def run(ctx):
